@@ -241,11 +241,18 @@ template <> z_interval_t z_interval_t::AShr(const z_interval_t &x) const {
       // huge shifts.  We limit the number of times the loop is run
       // to avoid wasting too much time on it.
       if (k <= 128) {
-        z_number factor = 1;
-        for (int i = 0; k > i; i++) {
-          factor *= 2;
+        // An arithmetic right shift is the division by 2^k rounding
+        // towards minus infinity (not towards zero). It is monotone
+        // so it suffices to shift the finite bounds.
+        z_bound_t new_lb = lb();
+        z_bound_t new_ub = ub();
+        if (new_lb.is_finite()) {
+          new_lb = z_bound_t(*(new_lb.number()) >> k);
         }
-        return (*this) / factor;
+        if (new_ub.is_finite()) {
+          new_ub = z_bound_t(*(new_ub.number()) >> k);
+        }
+        return z_interval_t(new_lb, new_ub);
       }
     }
     return top();
